@@ -4,6 +4,9 @@ import json, os
 HERE=os.path.dirname(os.path.dirname(os.path.abspath(__file__)))
 ALL=[f"C{i:02d}" for i in range(1,21)]
 CHECKS={
+ "C06":dict(cat="exploration",technique="runtime monitoring: differential infoset oracle (own XML tokenizer with attribute-value normalisation + encoding/xml strict) over an exhaustive neighbour matrix and seeded generated documents",
+   text="The real XML minifier is run, with both KeepWhitespace values, on every ordered triple of ten node kinds around whitespace runs (exhaustive), on seeded generated well-formed documents and on repository XML files; input and output are tokenized by my own XML tokenizer and compared as infoset event streams (elements, normalised attribute values, PIs, DOCTYPE, character-data runs up to collapsing/trimming, KeepWhitespace boundary rule), and the output must be well-formed for my tokenizer and encoding/xml.",
+   note="Trusts my tokenizer and encoding/xml; PI data compared up to whitespace outside quotes; two genuine defects (]]> in character data, PI data re-printed as attributes) are known findings with input guards.",ref="DESIGN.md §5 C06"),
  "C07":dict(cat="exploration",technique="runtime monitoring: differential lexeme-stream oracle (own RFC 8259 lexer + encoding/json + math/big) over exhaustive bounded number lexemes and seeded generated texts",
    text="The real JSON minifier is run on every RFC 8259 number lexeme up to a length bound in three contexts (exhaustive), on seeded generated texts and on repository JSON files, with both KeepNumbers values; output must be valid for encoding/json, never longer, and token-for-token equal (strings byte-identical, numbers exactly equal as rationals).",
    note="Trusts encoding/json.Valid, math/big and my lexer; unbounded input space is sampled.",ref="DESIGN.md §5 C07"),
